@@ -99,6 +99,14 @@ def shaped(g, rng):
                            func_over=0.0, mapper_idle=0.0, diamond=0.0, selfembed=0.0, flags={"way": "both"}))
         mapgen.to_new(rng, sp, sd, **kw)
         out.append(("plain-ptr-embeds-vs-new-" + sd, sp))
+    # the same as two FIXED shapes (a catch must not depend on what the random pairs above happen to contain): the shoot-new side has
+    # one `new`-marked field (the constructor takes it from the top level of the plain side), the others are written through
+    # setters from fields promoted through an embedded POINTER of the plain side, which is nil in turn
+    for sd in ("src", "dest"):
+        nw = [mapgen.F("id", mapgen.INT, new=True), mapgen.F("name", mapgen.STR), mapgen.F("rank", mapgen.INT)]
+        pl = [mapgen.F("ID", mapgen.INT), mapgen.E(mapgen.ST("Base", [mapgen.F("Name", mapgen.STR), mapgen.F("Rank", mapgen.INT)]), True)]
+        sp = mapgen.mk_spec(nw, pl, src_kind="new", sname="Doc") if sd == "src" else mapgen.mk_spec(pl, nw, dest_kind="new", sname="Doc")
+        out.append(("plain-ptr-embed-vs-new-fixed-" + sd, sp))
     # a shoot-new type that embeds a POINTER struct none of whose fields is a constructor parameter (opt-in `new` marks elsewhere),
     # while its fields are set after construction (seeded change C09-7): the constructor still has to allocate it
     F, E, ST, INT, STR = mapgen.F, mapgen.E, mapgen.ST, mapgen.INT, mapgen.STR
